@@ -331,6 +331,8 @@ class LocationTable:
                 # has a negative age modulo 2^32: the entry has not expired yet.
                 if (current_time - entry.position_vector.tst) <= lifetime
                 or entry.position_vector.tst > current_time
+                # the placeholder of an ongoing Location Service lookup has no timestamp yet
+                or entry.ls_pending
             }
 
     def new_shb_packet(
